@@ -1,2 +1,3 @@
 import CmGen.NamedColors
 import CmGen.Templates
+import CmGen.StateSig
